@@ -36,7 +36,7 @@ m = {
         'add_only': True,
     },
     'engines': [{'name': 'tsa', 'path': 'tsa/', 'serves_properties': sorted(claimed),
-                 'kind_free_text': 'custom static analysis: libTooling fact extractor (clang 14 resolved AST, template instantiations, constant evaluation) + python rule engine (finite-table enumeration, effect summaries with constant propagation, structured dataflow, sibling comparison, interval/width analysis, lockset)'}],
+                 'kind_free_text': 'custom static analysis: libTooling fact extractor (clang 14 resolved AST, template instantiations, constant evaluation) + facts normal form (helper inlining, alias / temporary folding, loop and atomic forms) + python rule engine (finite-table enumeration, effect summaries with constant propagation, guarded per-function summaries compared up to propositional equivalence, structured dataflow, sibling comparison, interval/width analysis, lockset) + compile-time witnesses in the thorough tier'}],
     'checks': checks,
     'notes': md.NOTES,
     'not_applicable': na,
